@@ -5,6 +5,8 @@ from vc2_conformance.fixeddict import fixeddict, FixedDictKeyError
 
 # a module-level type so that it can be pickled
 ProbeDict = fixeddict("ProbeDict", "a", "b", "c", "_d", module=__name__)
+# a DIFFERENT fixeddict type used as the source of update / |= (it declares the keys the probes try to smuggle in)
+ForeignDict = fixeddict("ForeignDict", "a", "b", "c", "_d", "bogus", "zz", module=__name__)
 
 
 def types():
@@ -20,11 +22,46 @@ def parse_kvs(s):
     return [] if s == "-" else [(kv.split("=")[0], int(kv.split("=")[1])) for kv in s.split(",")]
 
 
+_FOREIGN = {}
+
+
+def source(cls, kind, kvs):
+    """the argument of update / |= in one of the shapes a caller may use"""
+    import collections
+
+    if kind == "p":
+        return list(kvs)
+    if kind == "d":
+        return dict(kvs)
+    if kind == "o":
+        return collections.OrderedDict(kvs)
+    if kind == "g":
+        return (kv for kv in kvs)
+    if kind == "f":   # another fixeddict TYPE, declaring this type's first keys plus the ones the probes try to smuggle in
+        foreign = _FOREIGN.get(cls)
+        if foreign is None:
+            foreign = _FOREIGN[cls] = fixeddict("Foreign" + cls.__name__, *(list(cls.entry_objs)[:4] + ["bogus", "zz"]))
+        return foreign(kvs)
+    if kind == "s":   # the same type, as far as the keys allow
+        if all(k in cls.entry_objs for k, _ in kvs):
+            return cls(kvs)
+        return dict(kvs)
+    raise ValueError(kind)
+
+
+def model_ops(ops):
+    """the model's view: an update is an update whatever the shape of its argument"""
+    return [op[:2] + op[4:] if (op[0] in "UI" and len(op) > 3 and op[3] == "/") else op for op in ops]
+
+
 def run_fd(cls, ops):
     d = cls()
     out = []
     for op in ops:
         c, arg = op[0], op[2:]
+        kind = "p" if c == "U" else "d"
+        if c in "UI" and len(arg) > 1 and arg[1] == "/":
+            kind, arg = arg[0], arg[2:]
         try:
             if c == "N":
                 d2 = cls(parse_kvs(arg))
@@ -36,9 +73,12 @@ def run_fd(cls, ops):
                 (k, v), = parse_kvs(arg)
                 d.setdefault(k, v)
             elif c == "U":
-                d.update(parse_kvs(arg))
+                if kind == "k":
+                    d.update(**dict(parse_kvs(arg)))
+                else:
+                    d.update(source(cls, kind, parse_kvs(arg)))
             elif c == "I":
-                d |= dict(parse_kvs(arg))
+                d |= source(cls, "d" if kind in "pgk" else kind, parse_kvs(arg))
             elif c == "C":
                 d2 = d.copy()
                 assert type(d2) is cls, "copy changed the type"
@@ -79,8 +119,10 @@ def gen_prog(rng, declared):
         c = rng.choice("NSSDUUIIICPK")
         if c in "SD":
             ops.append("%s:%s" % (c, kv()))
-        elif c in "NUI":
+        elif c == "N":
             ops.append("%s:%s" % (c, kvs()))
+        elif c in "UI":
+            ops.append("%s:%s/%s" % (c, rng.choice("pdogkfsff" if c == "U" else "dofsf"), kvs()))
         else:
             ops.append(c)
     ops.append("K")
@@ -121,7 +163,7 @@ class Prop(object):
             declared = list(cls.entry_objs)
             for _ in range(ctx.n(400, 6000)):
                 ops = gen_prog(rng, declared)
-                lines.append("fd 1 %s %s" % (",".join(declared), " ".join(ops)))
+                lines.append("fd 1 %s %s" % (",".join(declared), " ".join(model_ops(ops))))
                 exp.append(run_fd(cls, ops))
             ctx.count("fd:type:%s" % cls.__name__, ctx.n(400, 6000))
         ctx.diff("fd operation programs on the library's fixeddict types: model == real", lines, exp)
@@ -131,7 +173,7 @@ class Prop(object):
         for cls in types():
             declared = list(cls.entry_objs)
             # directed cases first
-            for ops in (["I:bogus=1", "K"], ["U:bogus=1", "K"], ["S:bogus=1", "K"], ["D:bogus=1", "K"], ["N:bogus=1", "K"]):
+            for ops in (["I:bogus=1", "K"], ["U:bogus=1", "K"], ["U:f/bogus=1", "K"], ["I:f/bogus=1", "K"], ["U:k/bogus=1", "K"], ["U:o/zz=1", "K"], ["S:bogus=1", "K"], ["D:bogus=1", "K"], ["N:bogus=1", "K"]):
                 why = violates(cls, ops)
                 if why:
                     return {"type": cls.__name__, "ops": ops, "why": why}
